@@ -104,7 +104,7 @@ func init() {
 	})
 	register(&spec{
 		ID: "C39", Title: "Every JSON-RPC call completes exactly once with its own answer", Level: "exploration",
-		Instrument: map[string]simgen.Options{xgo + "/x/jsonrpc2": {Sync: true, Conc: true, Maps: true}, xgo + "/x/fakenet": {Sync: true, Conc: true, Maps: true}},
+		Instrument: map[string]simgen.Options{xgo + "/x/jsonrpc2": {Sync: true, Conc: true, Maps: true, Swap: map[string]string{"time": simgen.SimrtPath + "/stime", "runtime": simgen.SimrtPath + "/sruntime"}}, xgo + "/x/fakenet": {Sync: true, Conc: true, Maps: true}},
 		Harness:    []harnessCopy{{"c39", "x/jsonrpc2"}},
 		TestPkg:    "x/jsonrpc2", TestName: "TestZSimC39",
 		QuickRuns: 16000, ThoroughRuns: 6000000, QuickBudget: 4 * time.Minute, ThoroughBudget: 60 * time.Minute,
